@@ -104,9 +104,7 @@ Proof.
   intros cf c Hok Hc. unfold fdct_islow.
   replace (rows8 (repeat c 64)) with (repeat [c; c; c; c; c; c; c; c] 8) by reflexivity.
   cbn [repeat map]. rewrite (fdct_row_const cf c Hok Hc).
-  set (a := c * rowscale cf).
-  replace (transpose8 (repeat [a; 0; 0; 0; 0; 0; 0; 0] 8))
-    with ([a; a; a; a; a; a; a; a] :: repeat [0; 0; 0; 0; 0; 0; 0; 0] 7) by reflexivity.
-  cbn [repeat map]. unfold a. rewrite (fdct_col_const cf c Hok Hc). rewrite (fdct_col_zero cf Hok).
+  cbv [transpose8 seq map nth].
+  rewrite !(fdct_col_const cf c Hok Hc). rewrite !(fdct_col_zero cf Hok).
   reflexivity.
 Qed.
